@@ -4,10 +4,13 @@
    SopCommit: each registry write must be one of the protocol's writes, enabled in the current model state.  *)
 EXTENDS SopCommit, Json
 
-VARIABLE l
+VARIABLES l,      \* next trace line
+          ended   \* transactions that have ended (a lock one of them still holds - its Unlock failed - expires after
+                  \* its TTL, which is the transaction's maxTime: a later Lock that succeeds on such a key took it over)
 Trace == ndJsonDeserialize("trace.ndjson")
-tvars == <<vars, l>>
-IsEv(e) == l <= Len(Trace) /\ Trace[l].ev = e /\ l' = l + 1
+tvars == <<vars, l, ended>>
+IsEv0(e) == l <= Len(Trace) /\ Trace[l].ev = e /\ l' = l + 1
+IsEv(e) == IsEv0(e) /\ ended' = ended
 E == Trace[l]
 
 HRec(x) == Handle(x.a, x.b, x.ab, x.v, x.wip, x.del)
@@ -18,8 +21,8 @@ SetOf(q) == {q[i] : i \in 1..Len(q)}
 NormWip(h) == IF h.wip = "old" THEN [h EXCEPT !.wip = "ts"] ELSE h
 NodeKeys(q) == SetOf(q) \cap DOMAIN reg
 
-TraceInit == l = 1 /\ TLCSet(1, 1) /\ Init
-TraceReset == /\ IsEv("Reset")
+TraceInit == l = 1 /\ ended = {} /\ TLCSet(1, 1) /\ Init
+TraceReset == /\ IsEv0("Reset") /\ ended' = {}
               /\ reg' = <<>> /\ blobs' = {} /\ locks' = <<>> /\ res' = <<>> /\ marked' = {} /\ added' = {}
               /\ plog' = <<>> /\ left' = {} /\ hist' = {}
 
@@ -54,15 +57,22 @@ TracePLogRemove == IsEv("PLOG.Remove") /\ PLogRemove(E.t)
 \* locks on keys the model does not hold (registry sector locks, store locks, item locks) may be refused for reasons
 \* outside the model (e.g. an earlier Unlock of a sector lock failed): a refusal that involves such keys changes nothing
 TraceLock == /\ IsEv("L2.Lock")
-             /\ IF ~E.ok /\ NodeKeys(E.keys) # SetOf(E.keys) THEN UNCHANGED vars
-                ELSE Lock(E.t, NodeKeys(E.keys), E.ok)
+             /\ LET K == NodeKeys(E.keys)
+                    expired == {k \in K \cap DOMAIN locks : locks[k] \in ended} IN
+                IF ~E.ok /\ K # SetOf(E.keys) THEN UNCHANGED vars
+                ELSE IF E.ok /\ expired # {}
+                     THEN \* take-over of locks whose (ended) owner never released them
+                          /\ \A k \in K \ expired : k \notin DOMAIN locks \/ locks[k] = E.t
+                          /\ locks' = Put(locks, [k \in K |-> E.t])
+                          /\ UNCHANGED <<reg, blobs, res, marked, added, plog, left, hist>>
+                     ELSE Lock(E.t, K, E.ok)
 \* IsLocked answers for the node keys and for other keys (item locks, sector locks) alike: only a positive answer
 \* is checked against the model
 TraceIsLocked == /\ IsEv("L2.IsLocked")
                  /\ (E.ok /\ NodeKeys(E.keys) = SetOf(E.keys)) => HoldsAll(E.t, NodeKeys(E.keys))
                  /\ UNCHANGED vars
 TraceUnlock == IsEv("L2.Unlock") /\ Unlock(E.t, NodeKeys(E.keys))
-TraceEnd == IsEv("End") /\ End(E.t, E.ok)
+TraceEnd == IsEv0("End") /\ End(E.t, E.ok) /\ ended' = ended \cup {E.t}
 \* the harness advanced the clock past the one-hour expiry
 TraceAge == /\ IsEv("AgeAll")
             /\ reg' = [n \in DOMAIN reg |-> IF reg[n].wip = "ts" THEN [reg[n] EXCEPT !.wip = "old"] ELSE reg[n]]
